@@ -88,9 +88,21 @@ type history struct {
 	mu   sync.Mutex
 	seqs []uint16
 	lost uint64
+	// wrong: first delivered packet whose payload is not the one that was sent under its number
+	wrong string
 }
 
-func (h *history) packet(seq uint16) { h.mu.Lock(); h.seqs = append(h.seqs, seq); h.mu.Unlock() }
+// packet records a delivery. The k-th packet of the stream carries k in its first two payload
+// bytes: a packet that waited in the reorder buffer must still be the packet that arrived.
+func (h *history) packet(pkt *rtp.Packet, start uint16) {
+	h.mu.Lock()
+	h.seqs = append(h.seqs, pkt.SequenceNumber)
+	k := pkt.SequenceNumber - start
+	if h.wrong == "" && (len(pkt.Payload) != 4 || pkt.Payload[0] != byte(k) || pkt.Payload[1] != byte(k>>8)) {
+		h.wrong = fmt.Sprintf("sequence number %d (packet #%d of the stream) was delivered with payload % x, sent with %02x %02x 03 04", pkt.SequenceNumber, k, pkt.Payload, byte(k), byte(k>>8))
+	}
+	h.mu.Unlock()
+}
 func (h *history) loss(n uint64)     { h.mu.Lock(); h.lost += n; h.mu.Unlock() }
 
 func runWhole(t *testing.T, sc Scenario) *core.Result {
@@ -226,7 +238,7 @@ func runWhole(t *testing.T, sc Scenario) *core.Result {
 					w.Fail("c14/harness", "SetupAll (any_port=%v, server ports %s): %v", ws.AnyPort, ws.SrvPorts, err)
 					return
 				}
-				c.OnPacketRTPAny(func(_ *description.Media, _ format.Format, pkt *rtp.Packet) { hist.packet(pkt.SequenceNumber) })
+				c.OnPacketRTPAny(func(_ *description.Media, _ format.Format, pkt *rtp.Packet) { hist.packet(pkt, sc.StartSeq) })
 				if _, err := c.Play(nil); err != nil {
 					w.Fail("c14/harness", "Play: %v", err)
 					return
@@ -250,7 +262,7 @@ func runWhole(t *testing.T, sc Scenario) *core.Result {
 				w.Fail("c14/harness", "Server.Start: %v", err)
 				return
 			}
-			h.OnRTP = func(_ *gortsplib.ServerSession, _ *description.Media, _ format.Format, pkt *rtp.Packet) { hist.packet(pkt.SequenceNumber) }
+			h.OnRTP = func(_ *gortsplib.ServerSession, _ *description.Media, _ format.Format, pkt *rtp.Packet) { hist.packet(pkt, sc.StartSeq) }
 			h.NoForward = true
 			w.Go("publisher", func() {
 				defer srv.Close()
@@ -344,6 +356,13 @@ func judgeWhole(w *sys.World, sc *Scenario, hist *history) {
 		if ws.Net.UDPDrop == 0 {
 			w.Fail("c14/whole nothing", "%s: %d packets sent over a network that loses nothing, none was delivered", what, ws.Packets)
 		}
+		return
+	}
+	hist.mu.Lock()
+	wrong := hist.wrong
+	hist.mu.Unlock()
+	if wrong != "" {
+		w.Fail("c14/whole content", "%s: %s", what, wrong)
 		return
 	}
 	skipped := uint64(0)
